@@ -511,6 +511,11 @@ theorem fact_env_ok (keyOf : String → Option String) (sign : String → VCBody
             keyOf := keyOf, sign := sign, verify := verify } :=
   ⟨fact_constants.1, fact_constants.2.1, hs⟩
 
+/-- the status list URL is `<base>/statuslist/<issuer>/<page>` (the model's `Url.sl base issuer page`) -/
+theorem fact_status_list_url :
+    Facts.C11.statusListURL = ["result,_ := url.Parse(cs.baseURL)",
+      "return result.JoinPath(\"statuslist\",issuer.String(),strconv.Itoa(page)).String()"] := by decide
+
 theorem fact_entry_structure :
     Facts.C11.entryConds = ["purpose != StatusPurposeRevocation", "!errors.Is(err,gorm.ErrRecordNotFound)",
       "credentialIssuer.LastIssuedIndex > maxBitstringIndex", "errors.Is(err,gorm.ErrDuplicatedKey)"] ∧
